@@ -25,7 +25,7 @@ def run(ctx):
     ]
     ctx.assumptions += [
         "PARTIAL: that the trees built by the parser actions satisfy the range checker for EVERY token list (T5) is not proved; it is evaluated on every case",
-        "definition links and hierarchy items copy node ranges (SymbolInfo.range / selection_range); their responses are checked by the C10/C11/C13 harness modes, not here",
+        "definition links and hierarchy items copy node ranges (SymbolInfo.range / selection_range) of ANOTHER document: checked on the real ProjectManager over generated workspaces (harness modes `scope` and `tree`): start <= end, selection inside range, lines exist in the document the uri names",
         "'lines that exist': for token-level cases the document is taken to have as many lines as the last token's line",
     ]
     if ctx.replay:
@@ -78,8 +78,55 @@ def run(ctx):
             if "OK=" + py not in r:
                 cross_bad += 1
     ctx.oblige("tie:python-range-checker==lean-range-checker", cross_bad == 0, "%d cases differ" % cross_bad)
+    cross_file(ctx, q)
     ctx.samples = [{"case": lines[i][:300], "ranges": rm[i]} for i in (len(lines) - 1, len(lines) // 2, 7)]
     return ctx.finish(rule=RULE)
+
+
+def cross_file(ctx, q):
+    """responses that carry ranges of OTHER documents: definition links (mode `scope`) and hierarchy items (mode `tree`,
+    incl. items prepared from a USE of an inherited method), on the real ProjectManager over generated workspaces"""
+    from .. import scopelib
+    from . import c13
+    # definition links: selection inside the target range, start <= end, lines exist in the target file
+    cases = scopelib.generated(ctx, 40 if q else 600, prefix="r")
+    res = scopelib.run(ctx, cases, kinds=("d",), model=False)
+    nl = 0
+    for c, qs, impl, _, hl, dl in res:
+        lines_of = {stem.split("/")[-1].upper(): text.count("\n") + 1 for stem, text in c.files}
+        for qq, a in zip(qs, impl):
+            for sel, tgt in scopelib.links(a) or []:
+                nl += 1
+                stem, _, selr = sel.partition("@")
+                try:
+                    sr, tr = ranges.parse_rng(selr), ranges.parse_rng(tgt)
+                except Exception:
+                    continue
+                what = None
+                if not (ranges.ok(sr) and ranges.ok(tr)):
+                    what = "C08:link-start-after-end"
+                elif not ranges.within(sr, tr):
+                    what = "C08:link-selection-outside-target-range"
+                elif tr[2] >= lines_of.get(stem.upper(), 10 ** 9):
+                    what = "C08:link-line-does-not-exist"
+                if what:
+                    ctx.oracle_fail(what, "definition link %s / %s" % (sel, tgt), {"mode": "scope", "workspace": c.id, "query": qq, "implementation": a, "case": c.to_json()})
+    ctx.count("definition links checked", nl)
+    # hierarchy items
+    tcases = []
+    for _ in range(300 if q else 5000):
+        n = 3 + ctx.rng.below(4)
+        tcases.append("tree %s %d 3 free -" % (c13.files_of(c13.random_forest(n, ctx.rng), ctx.rng), 1 + ctx.rng.below(n)))
+    out = ctx.run_harness("tree", tcases)
+    ni = 0
+    for c, a in zip(tcases, out):
+        ni += a.count("=")
+        for w in a.split(" "):
+            if "!range" in w or "!selection" in w:
+                sig = "C08:hierarchy-item-" + w.split("!")[-1].split(",")[0]
+                ctx.oracle_fail(sig, "hierarchy item with a bad range: %s" % w, {"mode": "tree", "case": c, "implementation": a})
+                break
+    ctx.count("hierarchy answers checked", ni)
 
 
 def replay(ctx):
@@ -91,6 +138,15 @@ def replay(ctx):
         print("replay file names no input:", json.dumps(d.get("broken", d), indent=1)[:3000])
         return 1
     ctx.build_harness()
+    if isinstance(case, dict) and case.get("mode") == "tree":
+        a = ctx.run_harness("tree", [line])[0]
+        print("case          :", line)
+        print("implementation:", a)
+        if "!range" in a or "!selection" in a:
+            print("VIOLATION property=C08 replay=%s" % ctx.replay)
+            return 1
+        print("all hierarchy items of this case have well-formed ranges inside their documents")
+        return 0
     impl = ctx.run_harness("parse", [line])[0]
     t = sexp.field(impl, "T")
     print("case          :", line[:2000])
